@@ -31,12 +31,45 @@ def concatStart : List (Nat × Int) → Int
 /-- `len(net.dests[0]) == _no_mask_bitwidth[net.op](net)` -/
 def eqW (dw : Nat) (v : Int) : Bool := decide ((dw : Int) = v)
 
+/-! ### `s`: runs of consecutive ascending indices become one shifted, masked piece each -/
+
+/-- one run: source bits `start … start+len-1` land at result bits `res … res+len-1` -/
+structure Run where
+  start : Nat
+  len : Nat
+  res : Nat
+  deriving Repr, DecidableEq
+
+/-- the `for i, b in enumerate(net.op_param)` loop with its three state variables -/
+def runsFrom : List Nat → Nat → Nat → Nat → List Run
+  | [], s, L, r => [⟨s, L, r⟩]
+  | b :: rest, s, L, r =>
+    if b = s + L then runsFrom rest s (L + 1) r else ⟨s, L, r⟩ :: runsFrom rest b 1 (r + L)
+
+def runs : List Nat → List Run
+  | [] => []
+  | b :: rest => runsFrom rest b 1 0
+
+/-- `make_split()`: the three emitted shapes (regenerated in `Gen.FastEmit`), then `shift(bit, '<<', res)` -/
+def piece (arglen : Nat) (src : Int) (r : Run) : Int :=
+  let bit :=
+    if split_cond0 r.start r.len arglen then split_bit0 r.start r.len arglen src
+    else if split_cond1 r.start r.len arglen then split_bit1 r.start r.len arglen src
+    else split_bit2 r.start r.len arglen src
+  shiftL bit r.res
+
+/-- `expr = piece_1 + '|' + piece_2 + … ` (every piece is parenthesised) -/
+def selectExpr (arglen : Nat) (src : Int) : List Run → Int
+  | [] => 0
+  | r :: rs => rs.foldl (fun acc q => pyOr acc (piece arglen src q)) (piece arglen src r)
+
 /-- The value `sim_func` assigns to the destination variable of a net with op `op`. -/
 def exec (op : Op) (args : List (Nat × Int)) (dw : Nat) : Int :=
   let aw (i : Nat) : Int := ((args.getD i (0, 0)).1 : Int)
   let sumw : Int := (widthSum args : Int)
-  let nomask (f : Int → Int → Int → Int → Int → Int) : Bool :=
-    eqW dw (f (aw 0) (aw 1) (aw 2) sumw 0)
+  let nomaskP (f : Int → Int → Int → Int → Int → Int) (plen : Int) : Bool :=
+    eqW dw (f (aw 0) (aw 1) (aw 2) sumw plen)
+  let nomask (f : Int → Int → Int → Int → Int → Int) : Bool := nomaskP f 0
   match op, args with
   | .w,    [(_, x)] => if nomask noMask_w then plain_w x else masked_w (mask dw) x
   | .inv,  [(_, x)] => if nomask noMask_inv then plain_inv x else masked_inv (mask dw) x
@@ -53,6 +86,9 @@ def exec (op : Op) (args : List (Nat × Int)) (dw : Nat) : Int :=
   | .mux,  [(_, s), (_, f), (_, t)] =>
       if nomask noMask_mux then plain_mux s f t else masked_mux (mask dw) s f t
   | .concat, l => if nomask noMask_concat then concatStart l else pyAnd (mask dw) (concatStart l)
+  | .select idx, [(wa, x)] =>
+      if nomaskP noMask_select (idx.length : Int) then selectExpr wa x (runs idx)
+      else pyAnd (mask dw) (selectExpr wa x (runs idx))
   | _, _ => 0
 
 end Pyrtl.FastSim
